@@ -749,7 +749,7 @@ def bmc(sysm: System, bad_final=None, bad_any=None, depths=(40, 80, 120, 160), t
       st2 = enc.mk_state(t + 1)
       sc = z3.BitVec(f'sched@{t}', W)
       ch = z3.Bool(f'choice@{t}')
-      en = [enabled(i, st, ch) for i in range(n)]
+      en = [enabled(i, st, z3.BoolVal(True)) for i in range(n)]     # "can move", counting a possible timeout
       nobody = z3.And(*[z3.Not(e) for e in en])
       if bad_any is not None:
         any_bad.append(bad_any(enc, st))
@@ -787,8 +787,7 @@ def bmc(sysm: System, bad_final=None, bad_any=None, depths=(40, 80, 120, 160), t
       states.append(st2); scheds.append(sc); choices.append(ch)
     depth_done = K
     st = states[-1]
-    chK = z3.Bool(f'choice@{K}')
-    enK = [enabled(i, st, chK) for i in range(n)]
+    enK = [enabled(i, st, z3.BoolVal(True)) for i in range(n)]
     nobodyK = z3.And(*[z3.Not(e) for e in enK])
     ah = all_halted(st)
     bads = [z3.And(nobodyK, z3.Not(ah))]
